@@ -28,6 +28,17 @@ CHECKS = {
             'threaded server sequentially); oracle = exactly-once history '
             'checks, admissible reasons, freshness, no delivery afterwards, '
             'other namespaces unaffected.'),
+    'C06': ('DESIGN 4/C06',
+            'Seeded search over histories of emit-with-callback / call() to '
+            'individual clients interleaved with adversarial ACK / BINARY_ACK '
+            'frames (right, used, never issued incl. 0 and huge, outstanding '
+            'for another peer or on another namespace), disconnects, '
+            'reconnects and virtual-time advances past call() timeouts, on '
+            'the threaded and asyncio servers; oracle = outstanding-id model: '
+            'id uniqueness, callback at most once and only for its '
+            'connection+namespace+id with exactly the acknowledged arguments, '
+            'wrong ACKs cause no callback and no contained error, call() '
+            'result shaping and TimeoutError.'),
     'C20': ('DESIGN 4/C20',
             'Seeded search over thread interleavings (uniform random and PCT '
             'd=1..3) of 2-3 concurrent terminating actions on one sid of the '
